@@ -21,6 +21,11 @@ claimed = {
   text="rapid-generated archives in tar.gz/tar.xz/zip with hostile names, links, duplicates and clashes are extracted by the real functions into root/dest; a before/after snapshot of the whole root decides confinement, escaping entries must produce an error, well-formed archives must be reproduced exactly, duplicates must not mix contents; 2-4 concurrent checkDownloadAndExtractLib calls against a local httptest server must all succeed and leave one complete copy without residue. Exploration only.",
   note="tar.xz goes through the system GNU tar; OS scheduling of the concurrent requests is not controlled (only staggering and server delays are drawn); a hostile concurrent filesystem is out of scope.",
   design="§3 C20"),
+ "C16": dict(
+  technique="property-based testing (rapid): differential against `go list -e -json` (and `go build` for directives go list drops) on generated package trees",
+  text="rapid generates modules of packages with random directory trees and //go:embed lines; the real LoadDirectives/ResolvePatterns/ParsePatterns are compared with the reference toolchain's view of the same directory: pattern list, embedded file set, bytes, accept/reject. Exploration only; the compiled embed.FS/string/[]byte delivery is covered by the compiled-program part when built.",
+  note="go list / go build of go1.24 are the reference; errors compared as accept/reject; '//go:embed<TAB>' is not generated because go/build and the gc compiler disagree about it.",
+  design="§3 C16"),
 }
 not_yet = "check not built yet in this session (see DESIGN.md §3 for the planned generated-input check)"
 
